@@ -10,6 +10,7 @@ def run(c):
     obl_kani.run(c, names, timeout=3000)
     A.validate_dictionary_order(c)
     A.obl_regex_hygiene(c, 3 if c.tier == "quick" else 4, budget_s=900)
+    A.obl_fixed_search(c, thorough=(c.tier == "thorough"), budget_s=900)
     A.obl_fixed_assembly(c, thorough=(c.tier == "thorough"), budget_s=1200)
     c.outside("that every regex match over the 159k-word dictionary starts with the typed word (regex engine contract given the anchored, "
               "meta-free pattern that `regex_hygiene` establishes); the first-letter table content")
